@@ -3,10 +3,17 @@ package main
 import (
 	"encoding/json"
 	"fmt"
+	"os"
+	"path/filepath"
 	"strings"
+	"sync/atomic"
+	"time"
 
 	"mltwist/internal/consoleui/verifh/uix"
+	"mltwist/verifh/elfgen"
 	"mltwist/verifh/eng"
+	"mltwist/verifh/procx"
+	"mltwist/verifh/prog"
 )
 
 // C22 — console input never crashes the UI.
@@ -20,6 +27,71 @@ type c22Case struct {
 	Prog    string   `json:"program"`
 	History []uiLine `json:"history"`
 	Heights []int    `json:"heights"`
+	// PTY: the history is typed into the real binary running under a pseudo-terminal
+	PTY bool `json:"pty,omitempty"`
+}
+
+var c22Bin, c22BinDir string
+var c22Seq atomic.Int64
+
+// c22PTY types the lines of the history (each followed by two empty lines that dismiss
+// "Press ENTER" prompts) and then enough quits into the real mltwist binary under a
+// pseudo-terminal of 30 rows: whatever the lines are, the process must neither crash
+// nor hang and must end with exit status 0 once the quits are consumed.
+func c22PTY(c c22Case) *eng.Fail {
+	if c22Bin == "" {
+		dir, err := os.MkdirTemp("", "vc22")
+		if err != nil {
+			panic(err)
+		}
+		bin, err := procx.Build(dir)
+		if err != nil {
+			panic(err)
+		}
+		c22Bin, c22BinDir = bin, dir
+	}
+	p := progByName(c.Prog)
+	var secs []elfgen.Section
+	var progs []elfgen.Prog
+	for _, sg := range p.Segs {
+		code := prog.Image(sg.Words)
+		secs = append(secs, elfgen.Section{Type: elfgen.SHT_PROGBITS, Flags: 6, Addr: sg.Base, Data: code, Size: uint64(len(code))})
+		progs = append(progs, elfgen.Prog{Type: elfgen.PT_LOAD, Vaddr: sg.Base, Data: code, Memsz: uint64(len(code))})
+	}
+	f := elfgen.File{Type: elfgen.ET_EXEC, Entry: p.Entry, Sections: secs, Progs: progs}
+	path := filepath.Join(c22BinDir, fmt.Sprintf("p%d-%d.elf", os.Getpid(), c22Seq.Add(1)))
+	if err := os.WriteFile(path, f.Bytes(), 0o644); err != nil {
+		panic(err)
+	}
+	defer os.Remove(path)
+	var in strings.Builder
+	for _, l := range c.History {
+		in.WriteString(l.Line + "\n")
+		for _, a := range l.Answers {
+			in.WriteString(a + "\n")
+		}
+		in.WriteString("\n\n")
+	}
+	in.WriteString(strings.Repeat("q\n\n", 6))
+	res, err := procx.RunPTYOpt(c22Bin, []string{path}, 30, 100, in.String(), 120*time.Second, true)
+	if err != nil {
+		return nil // no pseudo-terminal available here
+	}
+	what := fmt.Sprintf("program %s, lines %q typed into the real binary under a pty", c.Prog, in.String())
+	if cr := res.Crashed(); cr != "" {
+		return &eng.Fail{Sig: "pty " + cr, What: fmt.Sprintf("%s: %s; output tail %.400q", what, cr, tail(res.Stdout, 400)), Case: c}
+	}
+	if res.Exit != 0 {
+		return &eng.Fail{Sig: fmt.Sprintf("pty exit %d", res.Exit), What: fmt.Sprintf("%s: exit status %d; output tail %.400q", what, res.Exit, tail(res.Stdout, 400)), Case: c}
+	}
+	return nil
+}
+
+func tail(s string, n int) string {
+	if len(s) > n {
+		return s[len(s)-n:]
+	}
+	return s
 }
 
 var c22Common = []string{"", " ", "h", "q", "q x", "nosuch", "   q", "h 1 2"}
@@ -51,6 +123,9 @@ func init() {
 }
 
 func c22Replay(c c22Case) (*uix.Session, *eng.Fail) {
+	if c.PTY {
+		return nil, c22PTY(c)
+	}
 	p := progByName(c.Prog)
 	s, err := uix.New(p.Segs, p.Entry)
 	if err != nil {
@@ -97,7 +172,7 @@ func init() {
 	checks["C22"] = eng.Check{
 		Hist:        true,
 		Procs:       12,
-		Rule:        "explicit-state BFS over input-line histories of depth <=3 (thorough 4) from the initial state and 5 non-initial root states (inside the emulator, after emulation steps, inside memory views of an absent and of a written memory, after a move) on 4 programs (a 1-instruction code, a 3-block code with blocks of different sizes, a loop with a gap, a code with blocks of 2, 1 and 2 instructions), through the real UI.processCommand with stdin injected per command; line alphabets per mode: disassembler 43 lines plus, per program, moves between every pair of block header lines, a move of EVERY line onto itself and onto its successor, bounds of every line, and move/bounds/goto on each block's first instruction, emulator 35 lines with prompt answers from {5,0x10,-1,'',_,zz}, memory view 27 lines (blank/space-only lines, missing/extra/non-numeric/negative/huge arguments, out-of-range line numbers, bad regexes, unknown commands, mode switches e, m <key>, q). After every command the composite screen is rendered at heights 24 and 50 as Run does. States are deduplicated by (mode stack, cursors, marks, code order, emulator registers and memory). Plus two long walks per program on a single session (600 lines cycling through the alphabet of the current mode). Oracle: no panic, the command loop does not fail, q pops exactly one mode. Non-trivial = history reaching a new state.",
+		Rule:        "explicit-state BFS over input-line histories of depth <=3 (thorough 4) from the initial state and 5 non-initial root states (inside the emulator, after emulation steps, inside memory views of an absent and of a written memory, after a move) on 4 programs (a 1-instruction code, a 3-block code with blocks of different sizes, a loop with a gap, a code with blocks of 2, 1 and 2 instructions), through the real UI.processCommand with stdin injected per command; line alphabets per mode: disassembler 43 lines plus, per program, moves between every pair of block header lines, a move of EVERY line onto itself and onto its successor, bounds of every line, and move/bounds/goto on each block's first instruction, emulator 35 lines with prompt answers from {5,0x10,-1,'',_,zz}, memory view 27 lines (blank/space-only lines, missing/extra/non-numeric/negative/huge arguments, out-of-range line numbers, bad regexes, unknown commands, mode switches e, m <key>, q). After every command the composite screen is rendered at heights 24 and 50 as Run does. States are deduplicated by (mode stack, cursors, marks, code order, emulator registers and memory). Plus two long walks per program on a single session (600 lines cycling through the alphabet of the current mode). Oracle: no panic, the command loop does not fail, q pops exactly one mode. PROC conformance: every single disassembler line (thorough: every pair of disassembler lines and every emulator line after 'entry; e') typed into the real binary under a pseudo-terminal on two programs, followed by quits: no crash, no hang, exit status 0. Non-trivial = history reaching a new state.",
 		Assumptions: []string{"every injected input ends with a tail of valid answers so prompts never hit EOF (horizon)", "terminal size is supplied by the harness (heights 24, 50); the system call path is only exercised by C26's pty runs"},
 		Run: func(r *eng.Run) {
 			uix.Discard = true // the oracle does not read the screen text
@@ -242,6 +317,44 @@ func init() {
 						r.Outcome(f.Sig)
 					}
 				}
+			}
+			// PROC conformance: the same lines typed into the real binary under a pseudo-terminal
+			// (UI.Run, the real line reader and view.Print): every single disassembler line on two
+			// programs; thorough: every pair of disassembler lines, and every emulator line after 'e'
+			ptyItem := 0
+			ptyDo := func(c c22Case) {
+				ptyItem++
+				if !r.Mine(ptyItem) {
+					return
+				}
+				f := c22PTY(c)
+				r.Eval(1)
+				r.Trace(1)
+				r.Trans(len(c.History))
+				if f != nil {
+					r.Report(f)
+					r.Outcome(f.Sig)
+				}
+			}
+			for _, pn := range []string{"three-blocks", "one-instruction"} {
+				dis := c22Alpha["disassemble"]
+				for _, l := range dis {
+					ptyDo(c22Case{Prog: pn, History: []uiLine{l}, PTY: true})
+				}
+				if !r.Quick() {
+					for _, l1 := range dis {
+						for _, l2 := range dis {
+							ptyDo(c22Case{Prog: pn, History: []uiLine{l1, l2}, PTY: true})
+						}
+					}
+					for _, l := range c22Alpha["emulate"] {
+						ptyDo(c22Case{Prog: pn, History: []uiLine{{Line: "entry"}, {Line: "e"}, l}, PTY: true})
+					}
+				}
+			}
+			if c22BinDir != "" {
+				os.RemoveAll(c22BinDir)
+				c22Bin, c22BinDir = "", ""
 			}
 			if r.Mine(0) {
 				r.Sample(c22Case{Prog: "three-blocks", History: []uiLine{{Line: "e"}, {Line: "s", Answers: []string{"0x10"}}}, Heights: []int{24, 50}})
